@@ -58,10 +58,15 @@ def translate_case(c: Case) -> Package:
         # history: earlier queries (text, metadata) are translated first on the SAME executor object - whether they
         # succeed or raise - and then the case itself, without resetting anything in between
         from mc.core.translate import _executor_class, reset_library_state
+        # (info["prior_executor"] == "other": every earlier query and the case itself get an executor object of their own,
+        # the way LocalFile / the datasets use the library - still one process, nothing reset by the harness)
         reset_library_state()
+        other = c.info.get("prior_executor") == "other"
         exe = _executor_class(c.backend)()
         for ptext, pmd in prior:
             translate_ast(wrap_metadata(parse_query(ptext), tuple(pmd)), c.backend, query_text=ptext, executor=exe, fresh=False)
+            if other:
+                exe = _executor_class(c.backend)()
         return translate_ast(a, c.backend, query_text=c.text, executor=exe, fresh=False)
     return translate_ast(a, c.backend, query_text=c.text)
 
